@@ -456,6 +456,16 @@ def _abl_f33(case):
     return dict(case, extras=[dict(e, kind="optimize") if e["kind"] == "doptimize" else e for e in case["extras"]])
 
 
+def _pre_f2b(case, result):
+    return any(e["kind"] == "persist" and e.get("entry") == "dask" for e in case.get("extras", []))
+
+
+def _abl_f2b(case):
+    """The same group with every dask.persist(x) member replaced by x.persist()."""
+    return dict(case, extras=[dict(e, entry="method") if e["kind"] == "persist" else e for e in case["extras"]])
+
+
 FINDING_ABLATIONS = {
     "F33": (_pre_f33, _abl_f33),
+    "F2b": (_pre_f2b, _abl_f2b),
 }
